@@ -146,6 +146,44 @@ def run(ck, facts, tier):
     from props.c10 import table_insert
     table_insert(ck, facts, cg, "C12.TABLE-AFTER-BUILD")
 
+    R = "C12.NO-CALLBACK-UNDER-LOCK"
+    ck.rule(R, "K7 (effect x lock region): inside the solver crates, while a MutexGuard / RwLock guard / RefMut over shared solver state is "
+               "alive (from the lock call to the drop of the guard), no closure parameter is invoked and no function that may reach a "
+               "database callback is called: a panic in the callback unwinds through the guard, poisons the lock (or leaves the RefCell "
+               "borrowed) and every later solve on this - and every other - solver sharing the state panics at `lock().unwrap()`")
+    from core import is_tracing as _is_tr
+    n_locks = 0
+    for crate in ("chalk_recursive", "chalk_engine"):
+        for key, lb in sorted(facts.bodies(crate).items()):
+            if lb.d.get("mir") is None:
+                continue
+            cfg = lb.cfg
+            locks = cfg.call_blocks(("Mutex::lock", "RwLock::write", "RwLock::read", "RefCell::borrow_mut", "RefCell::borrow"))
+            if not locks:
+                continue
+            drops = {i for i, blk in enumerate(cfg.blocks) if blk["t"].get("k") == "drop" and
+                     any(g in str(blk["t"].get("ty", "")) for g in ("MutexGuard", "RwLockWriteGuard", "RwLockReadGuard", "RefMut<", "cell::Ref<"))}
+            for L in locks:
+                n_locks += 1
+                region = set()
+                for e in cfg.succ[L]:
+                    if e[2] != ("unwind",):
+                        region |= cfg.reachable(e[1], (), False, stop=drops)
+                bad = None
+                for i in sorted(region - drops):
+                    t = cfg.blocks[i]["t"]
+                    if t.get("k") != "call" or _is_tr(t):
+                        continue
+                    if callee_matches(t, ("FnOnce::call_once", "Fn::call", "FnMut::call_mut")) or any(c in may_db for c in cg.callees_of_site(t)):
+                        bad = t
+                        break
+                inst = "%s:lock-region" % short(key.split("::{")[0])
+                if bad is not None:
+                    ck.violation(R, inst, lb.where(bad.get("ln")), "`%s` is called while the guard is held" % str(bad.get("res") or bad.get("fn")))
+                else:
+                    ck.ok(R, inst, "only plain data-structure operations under the lock")
+    ck.floor(R, "lock-sites-in-solver-crates", n_locks, 2)
+
     R = "C12.RESET-COVERS-STATE"
     ck.rule(R, "K2 (field coverage of the reset): what solve_root_goal uses to discard the frames an unwound solve left behind must reset "
                "every piece of state the push/pop discipline maintains: each field of the recursive solver's Stack that push or pop may "
